@@ -18,9 +18,25 @@ RULES = {
     "exh": "exhaustive: sizes 0..7 x every range set of 1..k specs (first-last, first-, -suffix over 0..8), "
     "joined with ',' and with ' , '; non-trivial = two specs overlap/touch/nest/are out of order, or a spec "
     "sits exactly on a rejection edge (first=size, first=last+1, suffix in {0,size,size+1})",
-    "long": "enumerated: headers with 12..600 specs (disjoint single bytes in both orders, with an invalid / unsatisfiable / byte-adding spec at the very end)",
+    "long": "enumerated: headers with 12..5000 specs (disjoint single bytes in both orders, with an invalid / unsatisfiable spec at the "
+    "very end, in the middle and in front, a byte-adding spec at the very end) and chains of 5..300 overlapping / adjacent / nested / "
+    "grouped specs in ascending, descending and strided order; non-trivial as in exh",
+    "tuples": "enumerated: every triple over a 36-spec universe (size 5; thorough: sizes 4, 6) and every quadruple over a 12-spec universe (size 4; "
+    "thorough: 19 specs, sizes 3, 5, 6), separators alternating; same non-trivial rule",
+    "big": "enumerated: positions and suffix lengths of 10..4000 digits (around 2^31, 2^32, 2^53, 2^63, 2^64, 10^18..10^21, 10^40, 10^100, 10^1000, "
+    "10^3999, some with low digits that are a position inside the file) x sizes 0..10^30 (around the same powers), alone and next to a valid spec; "
+    "size-relative specs (size-1, size, size+1) for the huge sizes; same non-trivial rule",
+    "scale": "enumerated: sizes at digit-count boundaries (8..12, 19..21, 99..101, 999..1001) and at 4096..10^12 x every single spec and every pair of "
+    "well-formed specs over size-relative anchors (0, 1, 2, 9, 10, 11, size/2, size-2, size-1, size, size+1, 10*size ...); "
+    "numbers 0..999 spelled with 0, 1 and 3 leading zeros on either side of the dash (sizes 7, 10, 100, 1000); same non-trivial rule",
+    "ows": "enumerated: 2- and 3-spec headers whose commas are surrounded by 0..3 blanks (SP / HTAB), a different separator at each comma; "
+    "each spec set is chosen so that losing or misreading one spec changes the outcome; same non-trivial rule",
+    "units": "enumerated: a satisfiable range set behind something that is not 'bytes=' (other units, 'bytes' with decoration, no '='), and "
+    "'bytes=' followed by text without any digit (no spec at all): must be 400; "
+    "non-trivial = header contains a digit-dash pattern (as in text)",
     "rand": "Hypothesis: sizes up to 10^12, 1..12 specs (occasionally 40..200) biased to the file end and powers of ten, permuted "
-    "overlapping/adjacent/nested sets; same non-trivial rule",
+    "overlapping/adjacent/nested sets, one position in six sets replaced by a 20..400-digit number, 0..3 blanks (SP / HTAB) around the commas, "
+    "one set in four with two different separators; same non-trivial rule",
     "text": "arbitrary text after/instead of 'bytes=': structural clause + exception class only; "
     "non-trivial = header contains a digit-dash pattern",
 }
@@ -47,7 +63,26 @@ def _relation_labels(specs, n):
     if edges:
         labs.append("edge")
         nontrivial = True
-    if len(specs) >= 2 and not ref.verdicts(specs, n):
+    if len(specs) > 48 and not ref.verdicts(specs, n):
+        # long lists: the same relations, found with one sorted sweep instead of all pairs (labels are statistics,
+        # the verdict does not depend on them): each interval is compared with the one that reaches furthest so far
+        iv = ref.intervals(specs, n)
+        rel = set()
+        if any(x[0] > y[0] for x, y in zip(iv, iv[1:])):
+            rel.add("out-of-order")
+        far = None
+        for y in sorted(iv):
+            if far is not None:
+                if y[0] < far[1]:
+                    rel.add("nested" if y[1] <= far[1] or y[0] == far[0] else "overlap")
+                elif y[0] == far[1]:
+                    rel.add("adjacent")
+            if far is None or y[1] > far[1]:
+                far = y
+        if rel:
+            nontrivial = True
+            labs.extend(sorted(rel))
+    elif len(specs) >= 2 and not ref.verdicts(specs, n):
         iv = ref.intervals(specs, n)
         rel = set()
         for (i, x), (j, y) in itertools.combinations(enumerate(iv), 2):
@@ -134,7 +169,8 @@ def oracle(case) -> Result:
         r.nontrivial = bool(_re.search(r"[0-9]-|-[0-9]", h))
         if not h.startswith("bytes=") and outcome != 400:
             r.fail("C03:unit-not-rejected", f"{h!r}: not a bytes range set but outcome {outcome}")
-        elif h.startswith("bytes=") and "-" not in h and outcome != 400:
+        elif h.startswith("bytes=") and ("-" not in h or not _re.search(r"\d", h)) and outcome != 400:
+            # without a dash, or without any digit (of any script), there is no first-last, first- or -suffix in the text
             r.fail("C03:no-spec-not-rejected", f"{h!r}: no spec at all but outcome {outcome}")
     return r
 
@@ -218,8 +254,22 @@ def rand_case(draw):
         import re as _re
 
         specs = [_re.sub(r"[0-9]+", pad, sp) for sp in specs]
-    sep = draw(st.sampled_from([",", ", ", " ,", " , ", ",\t"]))
-    return {"h": "bytes=" + sep.join(specs), "n": n}
+    if draw(st.integers(0, 5)) == 0:
+        # a position far beyond any file (20..400 digits) in one of the specs: first => 416, last => clipped, suffix => 416
+        i = draw(st.integers(0, len(specs) - 1))
+        huge = str(draw(st.sampled_from([2**63, 2**64, 10**19, 10**20, 10**21, 10**30, 10**400])) + draw(st.integers(0, 20)))
+        first = specs[i].partition("-")[0] or "0"
+        specs[i] = draw(st.sampled_from([f"{first}-{huge}", f"{first}-{huge}", f"{huge}-", f"{huge}-{huge}", f"-{huge}"]))
+    seps = [",", ", ", " ,", " , ", ",\t", ",  ", "  ,", "\t,", " \t, \t", "   ,   "]
+    sep = draw(st.sampled_from(seps))
+    if len(specs) > 2 and draw(st.integers(0, 3)) == 0:
+        # a different separator at every comma (the pattern repeats after 24 specs)
+        sep2 = draw(st.sampled_from(seps))
+        bits = draw(st.integers(1, 2**24 - 2))
+        h = specs[0] + "".join((sep2 if (bits >> (i % 24)) & 1 else sep) + sp for i, sp in enumerate(specs[1:]))
+    else:
+        h = sep.join(specs)
+    return {"h": "bytes=" + h, "n": n}
 
 
 _frag = st.one_of(
@@ -254,11 +304,22 @@ def oracle_atheris(case) -> Result:
 
 SUBS["atheris"] = oracle_atheris
 
-def long_cases():
-    """Headers with many specs (a server-side cap on the number of specs must not silently drop the tail):
-    k disjoint single-byte ranges, the same with an invalid or an unsatisfiable spec at the very end, and
-    a long redundant prefix followed by one spec that adds bytes."""
-    for k in (12, 33, 63, 64, 65, 66, 100, 129, 257, 600):
+def _orders(specs):
+    """The same spec list ascending, descending and in a strided (interleaved) order."""
+    k = len(specs)
+    yield specs
+    yield specs[::-1]
+    step = next(st_ for st_ in (7, 11, 13, 17, 19, 23) if k % st_)
+    yield [specs[(i * step) % k] for i in range(k)]
+
+
+def long_cases(quick=True):
+    """Headers with many specs (a server-side cap on the number of specs or on the header length must not
+    silently drop the tail, reject the set or answer with the whole file; the merge must not depend on the
+    interpreter's recursion limit): k disjoint single-byte ranges, the same with an invalid or an unsatisfiable
+    spec at the very end / in the middle / in front, and a long redundant prefix followed by one spec that adds
+    bytes.  Then chains: many specs that overlap, touch, nest or form groups with gaps, in three orders."""
+    for k in (12, 33, 63, 64, 65, 66, 100, 129, 257, 600, 1000, 1023, 1024, 1025, 2000, 2001, 2049, 3000, 4097, 5000):
         n = 4 * k + 10
         specs = [f"{2 * i}-{2 * i}" for i in range(k)]
         yield {"h": "bytes=" + ",".join(specs), "n": n}
@@ -267,22 +328,215 @@ def long_cases():
         yield {"h": "bytes=" + ",".join(specs + [f"{n}-"]), "n": n}
         yield {"h": "bytes=" + ",".join(["0-1"] * k + [f"{n - 2}-"]), "n": n}
         yield {"h": "bytes=" + ",".join(["0-1"] * k + ["-1"]), "n": n}
+        for bad in ("9-3", f"{n}-", f"{n + 5}-{n + 6}", "-0", f"-{n + 1}"):
+            yield {"h": "bytes=" + ",".join(specs[: k // 2] + [bad] + specs[k // 2:]), "n": n}
+            yield {"h": "bytes=" + ",".join([bad] + specs), "n": n}
+        # the file ends inside the list: every spec from there on is unsatisfiable
+        yield {"h": "bytes=" + ",".join(specs), "n": 2 * k - 2}
+        yield {"h": "bytes=" + ",".join(specs), "n": 2 * k - 1}
+        yield {"h": "bytes=" + ",".join(specs), "n": 0}
+    for k in (5, 6, 8, 9, 10, 12, 13, 16, 17, 31, 32, 33, 40, 64, 65, 70, 128, 130, 300):
+        shapes = {
+            "stairs": [f"{3 * i}-{3 * i + 4}" for i in range(k)],  # each overlaps the next by two bytes: one run
+            "touch": [f"{2 * i}-{2 * i + 1}" for i in range(k)],  # each abuts the next: one run
+            "gap1": [f"{3 * i}-{3 * i + 1}" for i in range(k)],  # one byte between neighbours: k runs
+            "groups": [f"{10 * (i // 5) + (i % 5)}-{10 * (i // 5) + (i % 5) + 2}" for i in range(k)],  # runs of 7 bytes, gaps of 3
+            "nested": [f"0-{4 * k}"] + [f"{4 * i + 1}-{4 * i + 2}" for i in range(k - 1)],  # all inside the first
+            "nest+": [f"5-{2 * k}"] + [f"{3 * i}-{3 * i + 1}" for i in range(k - 1)],  # a long one over the first two thirds of a gap1 list
+            "onion": [f"{i}-{4 * k - i}" for i in range(k)],  # each inside the previous
+            "tails": [f"{5 * i}-{5 * i + 1}" for i in range(k - 2)] + [f"{5 * k}-", "-3"],
+        }
+        for name, specs in shapes.items():
+            last = max(int(x) for sp in specs for x in sp.split("-") if x)
+            for order in _orders(specs):
+                yield {"h": "bytes=" + ",".join(order), "n": last + 7}
+            yield {"h": "bytes=" + ", ".join(specs), "n": last + 1}
+            # the file ends inside the last specs' first positions: clipped ends
+            first_of_last = max(int(sp.split("-")[0]) for sp in specs if sp.split("-")[0])
+            yield {"h": "bytes=" + ",".join(specs), "n": first_of_last + 1}
+
+
+# ---------------------------------------------------------------------------------------
+# enumerated companions of the random sub-checks (one sharded pass)
+
+
+def _u_wellformed(mx, extra=()):
+    u = [f"{a}-{b}" for a in range(mx + 1) for b in range(a, mx + 1)]
+    return u + list(extra)
+
+
+def tuples_cases(quick=True):
+    """Bugs that need three or four specs to show (merge against the previous spec instead of the accumulated
+    range, pairwise single-pass merging, a validity test that looks at the first and last spec only)."""
+    u3 = _u_wellformed(5, [f"{a}-" for a in range(6)] + [f"-{s}" for s in range(7)] + ["3-1", "1-0"])
+    seps = (",", ", ", " , ", ",\t")
+    i = 0
+    for n in (5,) if quick else (4, 6):
+        for combo in itertools.product(u3, repeat=3):
+            i += 1
+            yield {"h": "bytes=" + seps[i % 4].join(combo), "n": n}
+    if quick:
+        u4, sizes = _u_wellformed(3, ["2-", "-2"]), (4,)
+    else:
+        u4, sizes = _u_wellformed(4, ["1-", "3-", "-1", "-3"]), (3, 5, 6)
+    for n in sizes:
+        for combo in itertools.product(u4, repeat=4):
+            i += 1
+            yield {"h": "bytes=" + seps[i % 4].join(combo), "n": n}
+
+
+_BIG = [
+    2**31 - 1, 2**31, 2**32 - 1, 2**32, 2**53 + 1, 2**63 - 1, 2**63, 2**63 + 5, 2**64 - 1, 2**64, 2**64 + 3,
+    10**9, 10**10, 10**17 + 1, 10**18, 10**18 + 2, 10**19, 10**20, 10**21, 10**21 + 5, 10**40 + 3, 10**100, 10**1000 + 1, 10**3999,
+]
+_BIG_SIZES = [0, 1, 7, 1000, 4623, 2**31 - 1, 2**31, 2**32 + 1, 10**12, 10**18 + 3, 2**63 - 1, 2**63, 2**63 + 6, 2**64 + 5, 10**21 + 6, 10**30]
+
+
+def big_cases(quick=True):
+    """Numbers far beyond the file size (a digit-count guard, a digit cap in the pattern, a 32/64-bit mask or clamp
+    must not change the verdict: a huge first-byte-pos is 416, a huge last-byte-pos is clipped, a huge suffix is 416)
+    and sizes far beyond 10^12."""
+    for n in _BIG_SIZES:
+        mid = n // 2
+        for b in _BIG:
+            for sp in (f"{b}-", f"{b}-{b}", f"{b}-{b + 1}", f"0-{b}", f"{mid}-{b}", f"{max(n - 1, 0)}-{b}", f"-{b}", f"{b + 1}-{b}", f"00{b}-", f"0-0{b}"):
+                yield {"h": "bytes=" + sp, "n": n}
+            yield {"h": f"bytes=0-0,{b}-", "n": n}
+            yield {"h": f"bytes={b}-{b + 9}, 0-0", "n": n}
+            yield {"h": f"bytes=0-0,2-{b}", "n": n}
+            yield {"h": f"bytes={mid}-{b},0-0", "n": n}
+            yield {"h": f"bytes=-1,-{b}", "n": n}
+            yield {"h": f"bytes=0-{b},{b}-", "n": n}
+        if n >= 1000:
+            for sp in (
+                f"{n - 1}-", f"{n}-", f"{n + 1}-", f"-{n - 1}", f"-{n}", f"-{n + 1}", f"0-{n - 2}", f"0-{n - 1}", f"0-{n}",
+                f"{n - 1}-{n - 1}", f"{n - 1}-{n}", f"{n}-{n}", f"{n - 1}-{n - 2}", f"{mid}-{mid}",
+                f"{n - 4}-{n - 3},{n - 2}-", f"{n - 5}-{n - 4},{n - 2}-", f"-2,{n - 4}-{n - 3}", f"-2,{n - 5}-{n - 4}",
+                f"{mid}-{mid + 1},{mid + 2}-{mid + 3},0-0", f"{mid + 3}-{mid + 5},{mid}-{mid + 1},-1", f"0-{mid},{mid}-", f"{mid}-,0-{mid - 2}",
+            ):
+                yield {"h": "bytes=" + sp, "n": n}
+
+
+_SCALE_SIZES = [8, 9, 10, 11, 12, 19, 20, 21, 99, 100, 101, 110, 999, 1000, 1001, 4096, 4623, 65535, 65536, 10**6, 2**31 - 1, 2**31, 2**32, 10**12 + 1]
+
+
+def scale_cases(quick=True):
+    """Sizes and numbers whose decimal spellings differ in length or compare differently as text than as numbers,
+    and large sizes with specs a few bytes apart (a tolerance that scales with the size must not coalesce them)."""
+    for n in _SCALE_SIZES:
+        nums = sorted({0, 1, 2, 3, 8, 9, 10, 11, 19, 20, 99, 100, 101, n // 10, n // 2 - 1, n // 2, n // 2 + 1, n - 3, n - 2, n - 1, n, n + 1, n + 2, 10 * n, 10 * n + 9})
+        for a in nums:
+            yield {"h": f"bytes={a}-", "n": n}
+            yield {"h": f"bytes=-{a}", "n": n}
+            for b in nums:
+                yield {"h": f"bytes={a}-{b}", "n": n}
+        small = sorted({0, 1, 9, 10, n // 2, n - 2, n - 1} if quick else {0, 1, 2, 9, 10, n // 2, n // 2 + 2, n - 3, n - 2, n - 1})
+        u = [f"{a}-{b}" for a in small for b in small + [n, 10 * n] if a <= b]
+        u += [f"{a}-" for a in small] + [f"-{s}" for s in (1, 2, 10, n - 1, n)]
+        for x in u:
+            for y in u:
+                yield {"h": f"bytes={x},{y}", "n": n}
+    # the same number spelled with and without leading zeros, on either side (a comparison of spellings, of digit
+    # counts or of stripped text instead of numbers shows here)
+    pads = ("", "0", "000")
+    for n in (7, 10, 100, 1000):
+        nums = (0, 1, 5, 6, 9, 10, 11, 99, 100, 101, 999)
+        for a in nums:
+            for pa in pads:
+                yield {"h": f"bytes={pa}{a}-", "n": n}
+                yield {"h": f"bytes=-{pa}{a}", "n": n}
+                for b in nums:
+                    for pb in pads:
+                        yield {"h": f"bytes={pa}{a}-{pb}{b}", "n": n}
+                        yield {"h": f"bytes=0-0,{pa}{a}-{pb}{b}", "n": n}
+
+
+_OWS = ["", " ", "\t", "  ", " \t", "\t ", "\t\t", "   "]
+_OWS_SETS = [
+    (7, ("0-0", "2-2", "4-4")), (7, ("4-4", "0-0", "2-2")), (7, ("0-1", "2-3", "5-")), (7, ("-1", "0-0", "3-4")), (7, ("1-", "0-0", "-7")),
+    (7, ("0-0", "7-", "2-2")), (7, ("7-7", "0-0", "2-2")), (7, ("0-0", "2-2", "9-")), (7, ("0-0", "3-1", "2-2")), (7, ("3-1", "0-0", "2-2")),
+    (7, ("0-0", "2-2", "3-1")), (7, ("0-0", "-0", "2-2")), (7, ("0-0", "2-2", "-8")), (7, ("-8", "0-0", "2-2")),
+    (1000, ("0-9", "500-509", "990-")), (1000, ("10-19", "20-29", "-10")), (1000, ("0-9", "1000-", "20-29")), (1000, ("0-9", "20-10", "30-39")),
+    (7, ("0-0", "2-2")), (7, ("0-1", "2-")), (7, ("2-2", "7-")), (7, ("7-", "2-2")), (7, ("2-2", "3-1")), (7, ("3-1", "2-2")), (7, ("-2", "-0")),
+]
+
+
+def ows_cases(quick=True):
+    """Optional whitespace of the list syntax: 0..3 blanks (SP / HTAB in any mix) on either side of every comma,
+    and a different separator at each comma of one header."""
+    seps = [left + "," + right for left in _OWS for right in _OWS]
+    for n, specs in _OWS_SETS:
+        if len(specs) == 2:
+            for s1 in seps:
+                yield {"h": "bytes=" + specs[0] + s1 + specs[1], "n": n}
+        else:
+            for i, s1 in enumerate(seps):
+                # every separator in front, paired with 9 different ones behind (all 64 x 64 pairs in the thorough tier)
+                for s2 in (seps if not quick else [seps[(i * 5 + j * 7 + 1) % 64] for j in range(9)]):
+                    yield {"h": "bytes=" + specs[0] + s1 + specs[1] + s2 + specs[2], "n": n}
+
+
+_UNIT_PREFIXES = [
+    "", "=", "bytes", "bytes ", "byte=", "bytes =", " bytes=", "bytes\t=", "\tbytes=", "bytes  =", "bytes2=", "bytesx=", "bytes-=", "bytes-range=",
+    "kilobytes=", "xbytes=", "0bytes=", "bytes,=", "bytes;=", "bytes.=", "bytes:", "bytes: ", "items=", "none=", "seconds=", "bits=", "octets=",
+    "byte-ranges=", "b=", "bytes\x00=", "bytes/=", "\"bytes\"=", "unit=bytes;", "bytes\n=",
+]
+
+
+def units_cases(quick=True):
+    """Something that is not 'bytes=' in front of a range set that would be fine for the file: not a bytes range set, 400."""
+    for pre in _UNIT_PREFIXES:
+        for body in ("0-1", "0-", "-1", "0-0,2-2", "1-1, 3-", "0-99", "5-5", ""):
+            for n in (0, 1, 5, 1000):
+                yield {"h": pre + body, "n": n}
+    for body in ("", "-", "--", "---", "-,-", " - ", "\t-\t", "a-b", ",", ",,", "-,", ",-", "hello", "=", "bytes=-", "- -", "x", "-x", "x-", " ", "*", "-*", "*-"):
+        for n in (0, 1, 5, 1000):
+            yield {"h": "bytes=" + body, "n": n}
+
+
+ENUMS = {"tuples": tuples_cases, "big": big_cases, "scale": scale_cases, "ows": ows_cases, "units": units_cases}
+for _name in ENUMS:
+    SUBS[_name] = oracle
+
+
+def enum_shard(rec, k, nshards, names):
+    quick = rec.tier == "quick"
+    g = core.guarded(oracle)
+    i = 0
+    for name in names:
+        for case in ENUMS[name](quick):
+            i += 1
+            if i % nshards != k:
+                continue
+            res = g(case)
+            rec.count(name, case, res)
+            new, old = rec.split(res)
+            rec.note_known(old)
+            for f in new:
+                rec.add_violation(name, f, case)
+                rec.skip.add(f.bucket)
 
 
 def run(rec, only=None):
     quick = rec.tier == "quick"
-    core.drive_cases(rec, "long", long_cases(), oracle)
+    core.drive_cases(rec, "long", long_cases(quick), oracle)
     rec.exhaustive["long"] = True
-    if quick:
-        core.run_sharded(rec, exh_shard, 8, min(8, core.ncpu()), (2, 7, 8))
-    else:
-        core.run_sharded(rec, exh_shard, 64, core.ncpu(), (3, 7, 8))
-    rec.exhaustive["exh"] = True
+    names = [name for name in ENUMS if only is None or name in only]
+    if names:
+        core.run_sharded(rec, enum_shard, 16, core.ncpu(), (names,))
+    for name in names:
+        rec.exhaustive[name] = True
+    if only is None or "exh" in only:
+        if quick:
+            core.run_sharded(rec, exh_shard, 8, min(8, core.ncpu()), (2, 7, 8))
+        else:
+            core.run_sharded(rec, exh_shard, 64, core.ncpu(), (3, 7, 8))
+        rec.exhaustive["exh"] = True
     core.drive_hypothesis(rec, "rand", rand_case(), oracle, 3000 if quick else 60000)
     core.drive_hypothesis(rec, "text", text_case(), oracle, 2000 if quick else 40000, seed_offset=1)
     rec.exhaustive["rand"] = False
     rec.exhaustive["text"] = False
-    if not quick:
+    if (only is None or "atheris" in only) and not quick:
         # coverage-guided second engine (Atheris / libFuzzer), same oracle inside the target
         from fuzz import driver
 
